@@ -463,6 +463,8 @@ def r8(ctx: Ctx) -> None:
     ctx.site(fn.where, "section 'Modules' -> parse_yaml_modules, section 'Nets' -> parse_yaml_edges, returned as (modules, nets)")
     ok = False
     dl = [x for x in dict_loops(cn, None, top_only=True) if x[0] == ln]
+    if not dl and ln[1][0] == "v":          # a key loop whose body reads the entries at constant keys only
+        dl = [(ln, ln[1], ("s", ln[2], ln[1]), ln[2])]
     if dl and cn[-1][0] == "ret" and cn[-1][1][0] == "tuple" and len(cn[-1][1][1]) == 2:
         key, val = dl[0][1], dl[0][2]
         mv, ev = cn[-1][1][1]
@@ -473,7 +475,11 @@ def r8(ctx: Ctx) -> None:
             for s_ in st[2]:
                 if s_[0] == "set":
                     sets[kk] = (s_[1], s_[2])
-        ok = sets.get(kM) == (mv, ("c", ("g", "parse_yaml_modules"), (val,), ())) and sets.get(kN) == (ev, ("c", ("g", "parse_yaml_edges"), (val,), ()))
+        # in the case for one key the key *is* that constant (normal form): the entry read is tree['Modules'] / tree['Nets']
+        def entry(k_):
+            return (val, Sigma(raw_subst={key: k_}).apply(val))
+        ok = sets.get(kM) in [(mv, ("c", ("g", "parse_yaml_modules"), (v_,), ())) for v_ in entry(kM)] \
+            and sets.get(kN) in [(ev, ("c", ("g", "parse_yaml_edges"), (v_,), ())) for v_ in entry(kN)]
     if not ok:
         ctx.report(fn.where, "sections-decode", "parse_yaml_netlist does not decode 'Modules' with parse_yaml_modules and 'Nets' with parse_yaml_edges into (modules, nets)",
                    lineno=fn.node.lineno)
